@@ -27,4 +27,14 @@ CHECKS = {
              "generate_quiescence_moves on every explored position not in check; in check the search uses all legal moves (C01 run).",
         design_ref="DESIGN.md section 5, C17", note=_RULES_NOTE,
         technique="TLA+ rules spec; TLC-generated tactical sets replayed into the quiescence move filter; TLC trace validation"),
+    "C15": dict(
+        text="TT.tla models the table (Store with depth-preferred replacement, Retrieve, and Evict as a named deviation). TLC checks "
+             "exhaustively (2-3 keys x depths 0..2 x 2 payloads, all histories up to length 4/5) that the table always equals the "
+             "history-level reference 'last store of maximal depth per key', OnlyStored, LookupFaithful and the action properties "
+             "DeepestWins / NoCrossKey. Every behaviour of the bounded model is replayed on the real TranspositionTable under "
+             "adversarial 64-bit key sets; random store/retrieve histories of the real table are validated by TLC (TTTrace.tla).",
+        design_ref="DESIGN.md section 5, C15",
+        note="Trusted: TLC; payload (eval, move, bound) treated as opaque text. Exhaustive within the stated constants; longer histories "
+             "and 64-bit keys sampled. A lookup answering 'nothing' is accepted (the property allows it) and reported as deviation.",
+        technique="TLA+ table spec model-checked by TLC; all bounded-model histories replayed on the real table; TLC trace validation"),
 }
